@@ -10,6 +10,7 @@ verification conditions over mathematical integers / reals.
 
 One VC per obligation:  preconditions /\ path facts /\ guard /\ not(claim)  must be unsat.
 """
+import os
 import re
 
 import astload
@@ -154,6 +155,7 @@ class WP:
         self.post = None              # callable(wp, retV) -> list of (label, term)
         self.used = {}
         self.src_cache = {}
+        self.loop_exits, self.inline_rets, self.inlining = [], [], []
 
     # ------------------------------------------------------------ basics
     def fresh(self, sort, hint='v', ctype=None):
@@ -462,9 +464,116 @@ class WP:
         if h is None:
             h = self.lookup(STD_CALLS, key)      # small fallback vocabulary (exact over the reals / integers)
         if h is None:
+            r = self.inline_call(n, callee)
+            if r is not None:
+                return r
             raise Unsupported(f'{self.name}: call not mapped: {key}')
         self.note(key.split('|')[0])
         return h(self, n, n['inner'][1:], callee)
+
+    def inline_call(self, n, callee):
+        """an unmapped callee that is a plain (non-member) function of /repo with its body in this translation unit and scalar
+        by-value / const-reference parameters -- typically a file-local helper factored out of the function under contract --
+        is executed symbolically in place (the real code; obligations inside it are generated under the call's path
+        condition).  Returns the value, or None when the callee is not such a function (the call stays `not mapped`)."""
+        rd = callee.get('referencedDecl') or {}
+        nm, ty = rd.get('name'), (rd.get('type') or {}).get('qualType')
+        tu = getattr(self, 'tu', None)
+        if not tu or not nm or not ty or not re.fullmatch(r'[A-Za-z_]\w*', nm):
+            return None
+        try:
+            docs = astload.dump(tu, nm)
+        except ExtractionError:
+            return None
+        cands = {}
+        for d in docs:
+            for x in astload.walk(d):
+                if x.get('kind') == 'FunctionDecl' and x.get('name') == nm and (x.get('type') or {}).get('qualType') == ty \
+                        and astload.has_body(x) and (x.get('_file') or '').startswith(astload.REPO + '/'):
+                    cands[(x.get('_file'), x.get('_line'), x.get('mangledName'))] = x
+        if len(cands) != 1:
+            return None
+        d = list(cands.values())[0]
+        params = [c for c in d['inner'] if c['kind'] == 'ParmVarDecl']
+        args = n['inner'][1:]
+        if len(params) != len(args) or nm in self.inlining:
+            return None
+        body = [c for c in d['inner'] if c['kind'] == 'CompoundStmt'][0]
+        if any(x.get('kind') in ('ForStmt', 'WhileStmt', 'DoStmt', 'CXXForRangeStmt') for x in astload.walk(body)):
+            raise Unsupported(f'{self.name}: unmapped helper {nm} contains a loop (it needs a contract of its own)')
+        vals = []
+        for p, a in zip(params, args):
+            q = p['type'].get('qualType', '')
+            if q.rstrip().endswith('&') and not re.match(r'^\s*const\b', q):
+                raise Unsupported(f'{self.name}: unmapped helper {nm} takes a mutable reference')
+            try:
+                s_, c_ = self.sort_of(p['type'])
+            except Unsupported:
+                # class-typed parameter (by value or const reference) bound to a variable the spec models by dotted keys
+                # (`u.t`, `u.f`, ...): the parameter is a read-only alias of those entries
+                ua = unwrap(a)
+                while ua.get('kind') in ('CXXConstructExpr',) and len(ua.get('inner', [])) == 1:
+                    ua = unwrap(ua['inner'][0])
+                if ua.get('kind') not in ('DeclRefExpr', 'MemberExpr'):
+                    raise Unsupported(f'{self.name}: unmapped helper {nm}: class-typed argument of kind {ua.get("kind")}')
+                base = self.loc(ua)
+                ali = {k[len(base):]: v for k, v in self.env.items() if k == base or k.startswith(base + '.')}
+                if not ali:
+                    raise Unsupported(f'{self.name}: unmapped helper {nm}: argument {base} is not modelled')
+                vals.append(ali)
+                continue
+            vals.append(self.conv(self.ev(a), s_, c_, a))
+        saved = (self.env, self.ret_sort, getattr(self, 'idmap', None))
+        g_call = self.guard
+        self.env = {}
+        if saved[2] is not None:
+            self.idmap = dict(saved[2])
+        for p, v in zip(params, vals):
+            key = p.get('name', f'_arg{p.get("id")}')
+            if isinstance(v, dict):
+                for suffix, vv in v.items():
+                    self.env[key + suffix] = vv
+            else:
+                self.env[key] = v
+            if saved[2] is not None:
+                self.idmap[p.get('id')] = key
+        rett = {'qualType': ty.split('(')[0].strip()}
+        try:
+            self.ret_sort = self.sort_of(rett)
+        except Unsupported:
+            self.ret_sort = None
+        self.inlining.append(nm)
+        self.inline_rets.append([])
+        try:
+            self.ex(body)
+            rets = self.inline_rets[-1]
+            if self.guard != 'false':
+                if self.ret_sort is not None:
+                    self.oblige(f'end of the non-void helper {nm} is unreachable', 'false', d)
+                else:
+                    rets.append((self.guard, None))
+        finally:
+            self.inline_rets.pop()
+            self.inlining.pop()
+            self.env, self.ret_sort = saved[0], saved[1]
+            if saved[2] is not None:
+                self.idmap = saved[2]
+            self.guard = g_call
+        self.note(f'inlined /repo helper {nm}')
+        if self.ret_sort_of(rett) is None:
+            return V('0', 'Int', 'int')
+        if not rets:
+            raise Unsupported(f'{self.name}: helper {nm} has no return path')
+        out = rets[-1][1]
+        for g, v in reversed(rets[:-1]):
+            out = V(ITE(g, v.t, out.t), v.s, v.c)
+        return out
+
+    def ret_sort_of(self, rett):
+        try:
+            return self.sort_of(rett)
+        except Unsupported:
+            return None
 
     def member_call(self, n):
         inner = n['inner']
@@ -574,6 +683,10 @@ class WP:
                 rv = self.ev(inner[0])
                 if self.ret_sort and rv.s != self.ret_sort[0]:
                     rv = self.conv(rv, self.ret_sort[0], self.ret_sort[1], n)
+            if self.inline_rets:
+                self.inline_rets[-1].append((self.guard, rv))     # return of an inlined helper: back to the call site
+                self.guard = 'false'
+                return
             self.returns += 1
             if self.post:
                 for label, claim in self.post(self, rv):
@@ -584,6 +697,12 @@ class WP:
             return
         if k in ('ForStmt', 'WhileStmt', 'CXXForRangeStmt'):
             return self.loop(n)
+        if k in ('BreakStmt', 'ContinueStmt') and self.loop_exits:
+            # the path leaves the iteration here: its (path condition, state) is merged at the loop exit (break) or in front of
+            # the increment / invariant check (continue)
+            self.loop_exits[-1]['breaks' if k == 'BreakStmt' else 'continues'].append((self.guard, dict(self.env)))
+            self.guard = 'false'
+            return
         if k in ('BreakStmt', 'ContinueStmt', 'DoStmt', 'SwitchStmt', 'CXXTryStmt', 'GotoStmt'):
             raise Unsupported(f'{self.name}: statement kind {k}')
         for h in self.stmt_hooks:
@@ -612,6 +731,21 @@ class WP:
             return self.member_name(n)
         raise Unsupported('assignment through a call inside a loop')
 
+    def find_counter(self, cond, mod):
+        for x in astload.walk(cond):
+            if x.get('kind') == 'BinaryOperator' and x.get('opcode') in ('<', '<=', '>', '>=', '!='):
+                sides = x['inner'] if x['opcode'] in ('<', '<=', '!=') else list(reversed(x['inner']))
+                u = unwrap(sides[0])
+                if u.get('kind') == 'DeclRefExpr':
+                    try:
+                        key = self.loc(u)
+                    except Unsupported:
+                        continue
+                    v = self.env.get(key)
+                    if key in mod and v is not None and v.s == 'Int':
+                        return key
+        return None
+
     def loop(self, n):
         self.loops += 1
         inv = self.invariants.get(self.loops)
@@ -628,9 +762,12 @@ class WP:
             init, cond, inc, body = None, inner[0], None, inner[1]
         if init:
             self.ex(init)
+        mod = self.assigned_vars(body) | (self.assigned_vars(inc) if inc else set())
+        # the loop's counter, found by its role (the integer variable the condition bounds from above and the loop itself
+        # advances), so that invariants need not know what the source calls it: `wp.env[wp.loop_counter]`
+        self.loop_counter = self.find_counter(cond, mod) if cond else None
         for label, claim in inv(self):
             self.oblige(f'loop {self.loops} invariant holds on entry: {label}', claim, n)
-        mod = self.assigned_vars(body) | (self.assigned_vars(inc) if inc else set())
         extra = getattr(inv, 'havoc', ())
         if '*' in mod:
             raise Unsupported('loop assigns through an unknown location')
@@ -657,7 +794,14 @@ class WP:
         if rangevar is not None:
             self.ex(rangevar)
         env_body0 = dict(self.env)
-        self.ex(body)
+        self.loop_exits.append({'breaks': [], 'continues': []})
+        try:
+            self.ex(body)
+        finally:
+            exits = self.loop_exits.pop()
+        for gc, envc in exits['continues']:       # `continue`: joins the fall-through path in front of the increment
+            self.env = self.merge(gc, envc, self.env)
+            self.guard = OR(self.guard, gc)
         if inc:
             self.ev(inc)
         body_post = getattr(inv, 'body_post', None)
@@ -677,20 +821,31 @@ class WP:
             before = dec(self, env_head)
             after = dec(self, self.env)
             self.oblige(f'loop {self.loops} variant decreases and is bounded below', f'(and (< {after} {before}) (>= {before} 0))', n)
-        # after the loop
+        # after the loop: the head exit (condition false in a state satisfying the invariant) and every `break` path
         self.env = env_head
         self.guard = AND(g0, NOT(c))
+        for gb, envb in exits['breaks']:
+            self.env = self.merge(gb, envb, self.env)
+            self.guard = OR(self.guard, gb)
 
     # ------------------------------------------------------------ driver
     decl_hooks = ()
     stmt_hooks = ()
     real_div_check = True
     want_loc = False
+    loop_counter = None
+    tu = None            # translation unit for looking up unmapped /repo helpers (set by run() from the function's own file)
 
     def run(self, fn, file=None):
         self.default_file = file
         self.guard = 'true'
         self.returns = 0
+        self.loop_exits, self.inline_rets, self.inlining = [], [], []
+        if self.tu is None:
+            for cand in (fn.get('_file'), file):
+                if cand and str(cand).endswith(('.cpp', '.cc', '.cxx')):
+                    self.tu = cand if os.path.isabs(cand) else astload.resolve_tu(cand)
+                    break
         fq = fn['type']['qualType']
         rett = {'qualType': fq.split('(')[0].strip()}
         try:
